@@ -33,7 +33,11 @@ def make_env(cfg):
         ext.append("jinja2.ext.i18n")
     if cfg.get("loopcontrols"):
         ext.append("jinja2.ext.loopcontrols")
-    return cls(enable_async=bool(cfg.get("async")), extensions=ext, autoescape=bool(cfg.get("autoescape")),
+    ae = cfg.get("autoescape")
+    if ae == "select":
+        # decided per template NAME, with multi-segment extensions: one callable shared by every compilation of the environment
+        ae = jinja2.select_autoescape(enabled_extensions=("html.j2", "xml.j2", "htm"), disabled_extensions=("txt.j2",), default=False)
+    return cls(enable_async=bool(cfg.get("async")), extensions=ext, autoescape=ae if callable(ae) else bool(ae),
                finalize=_finalize if cfg.get("finalize") else None)
 
 
